@@ -36,6 +36,9 @@ func Init(otherLogger log.Logger) {
 }
 
 func GetTime() time.Time {
+	if t, ok := verifNow(); ok {
+		return t
+	}
 	if !ntpInitFlag {
 		timeOffset = ntpOffset(true)
 		ntpInitFlag = true
